@@ -43,6 +43,33 @@ CLAIMED["C02"] = dict(
     technique="TLA+ model checking of the parser state machine (TLC) + outcome-trace validation by TLC",
     ref="DESIGN.md section 6 C02")
 
+CLAIMED["C05"] = dict(
+    text="TLC explores every schedule of the stream design (MC_Stream: delivery sizes, not-ready results with immediate "
+         "or deferred wake-up, termination under fairness) and prints each behaviour; the harness replays them and "
+         "exhaustive/random chunkings of a corpus (well-formed and malformed) through the real async parser with a "
+         "scripted source and executor, runs the blocking parser on the same octets, and TLC validates every read "
+         "call and the equality of outcomes against Trace_Stream.",
+    note="Exhaustive chunkings only for messages <= 16 (21) octets; not-ready placement patterned beyond the model "
+         "messages. Trusted: harness sources/executor, TLC.",
+    technique="TLA+ model checking of the stream design (TLC, safety + liveness) + replay of TLC schedules + TLC trace validation",
+    ref="DESIGN.md section 6 C05")
+CLAIMED["C06"] = dict(
+    text="As C05 for the blocking parser with Interrupted results and for both entry points, with payload octets after "
+         "the end tag: Trace_Stream requires every buffer offered to the source to be exactly the rest of the current "
+         "element (no read-ahead for any source), consumption to stop on the end tag, and the payload / returned "
+         "reader to yield exactly the octets after it.",
+    note="Payloads up to 64 KiB (4 MiB thorough); exhaustive chunkings for short messages. Trusted: harness sources.",
+    technique="TLA+ model checking of the stream design (TLC) + replay of TLC schedules + TLC trace validation of every read call",
+    ref="DESIGN.md section 6 C06")
+CLAIMED["C07"] = dict(
+    text="TLC explores every cut and every single fault (8 kinds) at every read of the stream design in both modes; the "
+         "harness expands to every octet offset of every corpus message with both parsers and both entry points; "
+         "Trace_Stream demands an error of exactly the injected kind / UnexpectedEof, no read after the failure and "
+         "never a success before the end tag.",
+    note="Exhaustive per message (offset x kind); corpus bounded (<= 160 octets per message). Trusted: harness sources.",
+    technique="TLA+ model checking with fault actions (TLC) + exhaustive fault injection replayed on the code + TLC trace validation",
+    ref="DESIGN.md section 6 C07")
+
 NOT_YET = "check not built yet in this round (planned, see DESIGN.md section 6)"
 
 
